@@ -13,7 +13,21 @@ def _c09_extra(repo, reg, tier):
     return scan(repo, reg, tier)
 
 
+def _c01_extra(repo, reg, tier):
+    from contracts.iteration import bounded_extra
+
+    return bounded_extra(repo, reg, tier)
+
+
 PROPS: dict[str, dict] = {
+    "C01": {
+        "modules": ["iteration"],
+        "extra": [_c01_extra],
+        "assumptions": ["leaf payloads are re-iterable and hold the leaf's rows; iteration-engine leaves always carry a payload",
+                        "laws of spec/laws.py (assumed, bounded-checked)",
+                        "independence of merging/elision/reordering at construction time is C05 (UnaryOperation._finish_apply) and C03 (backtracking)"],
+        "explanation": "iteration.Engine.execute proved arm by arm: content(result) == rows(relation); RowIterable class contracts, Sort arm and converted callables assumed + bounded-checked",
+    },
     "C09": {
         "modules": ["persist"],
         "extra": [_c09_extra],
@@ -21,7 +35,7 @@ PROPS: dict[str, dict] = {
         "explanation": "hash/eq obligations on every dataclass reachable from Relation; frame obligation for every mutating statement of the library; no ambient-state imports",
     },
     "C10": {
-        "modules": ["payload"],
+        "modules": ["iteration"],
         "extra": [_c10_extra],
         "assumptions": [],
         "explanation": "attach_payload contracts (write-once, rejected attach changes nothing, frame) + AST scan: no other payload write in the library",
